@@ -598,8 +598,16 @@ func ruleR03R04(c *Ctx) {
 					case accepted(s):
 						c.r.ok("R03", fmt.Sprintf("%s.Insert %s %s", tk.Name, where, desc), pos, "accepted event set for an Insert path", props...)
 					default:
+						// a size that no longer equals the number of stored keys also leaves a tree emptied
+						// by deletions unlike a new one (the second half of C12)
+						extra := []string{"C12"}
+						if s.n[evVA] > 0 {
+							// the path that finds the key present does more than store the value: the
+							// no-op-update half of C15
+							extra = append(extra, "C15")
+						}
 						o := c.r.bad("R03", fmt.Sprintf("%s.Insert %s %s", tk.Name, where, desc), pos,
-							"Insert path ends with "+desc+": accepted are {VALUE}, {LINK,SIZE+}, {OVERWRITE,RELINK,LINK,SIZE+}, {ROOTLINK,SIZE+} – a leaf is linked without being counted, counted without being linked, or a subtree is dropped", props...)
+							"Insert path ends with "+desc+": accepted are {VALUE}, {LINK,SIZE+}, {OVERWRITE,RELINK,LINK,SIZE+}, {ROOTLINK,SIZE+} – a leaf is linked without being counted, counted without being linked, or a subtree is dropped", append(append([]string(nil), props...), extra...)...)
 						o.Path = res.witness(b, res.entryOf[pkey{b.Index, s}])
 					}
 				}
@@ -671,7 +679,7 @@ func ruleR03R04(c *Ctx) {
 						}
 						if call, ok := x.(*ast.CallExpr); ok && found == nil {
 							if f := c.m.staticCallee(call); f != nil {
-								if tu := c.m.ByObj[f]; tu != nil && tu != du && tu.Recv == tk.Name && tu.Lit == nil {
+								if tu := c.m.ByObj[f]; tu != nil && tu != du && (tu.Recv == tk.Name || (tu.Recv == "" && c.takesSlot(tu))) && tu.Lit == nil {
 									found, cu = call, tu
 								}
 							}
@@ -686,6 +694,19 @@ func ruleR03R04(c *Ctx) {
 					any := false
 					for _, b := range sub.g.Blocks {
 						if isPanicBlock(info, b) {
+							continue
+						}
+						// `return self(child, …)`: by induction the outcome of that path is one of the
+						// other outcomes, provided nothing happened at this level before the call
+						if tailSelfCall(c.m, cu, b) {
+							for _, st := range sub.exits[b] {
+								if st.n[evUN] > 0 || st.n[evSZ] > 0 || st.n[evBAD] > 0 {
+									bad := summary{flags: st.flags}
+									bad.n[evBAD] = 1
+									sums = append(sums, bad)
+									any = true
+								}
+							}
 							continue
 						}
 						for _, st := range sub.exits[b] {
@@ -715,7 +736,12 @@ func ruleR03R04(c *Ctx) {
 						return flagLX
 					}
 					return 0
-				}, &pathOpts{info: info, inline: inline})
+				}, &pathOpts{info: info, inline: inline, boolReturn: func(val bool) []int {
+					if val {
+						return []int{evRT}
+					}
+					return []int{evRF}
+				}})
 			}
 			res := deletePaths(u, 0)
 			nExits := 0
@@ -737,7 +763,7 @@ func ruleR03R04(c *Ctx) {
 					if okState {
 						c.r.ok("R04", key, pos, "accepted: one unlink, one decrement, true – or nothing and false", append(props, "C15", "C17")...)
 					} else {
-						o := c.r.bad("R04", key, pos, "Delete path ends with "+desc+": accepted are {UNLINK,SIZE-,return-true} and {return-false}", append(props, "C15", "C17")...)
+						o := c.r.bad("R04", key, pos, "Delete path ends with "+desc+": accepted are {UNLINK,SIZE-,return-true} and {return-false}", append(append([]string(nil), props...), "C15", "C17", "C12")...)
 						o.Path = res.witness(b, res.entryOf[pkey{b.Index, s}])
 					}
 				}
@@ -896,4 +922,48 @@ func (c *Ctx) takesSlot(u *FuncUnit) bool {
 		}
 	}
 	return false
+}
+
+// tailSelfCall: the block ends in `return f(…)` with f the unit itself.
+func tailSelfCall(m *Model, u *FuncUnit, b *cfg.Block) bool {
+	if len(b.Nodes) == 0 || u.Obj == nil {
+		return false
+	}
+	rs, ok := b.Nodes[len(b.Nodes)-1].(*ast.ReturnStmt)
+	if !ok || len(rs.Results) != 1 {
+		return false
+	}
+	call, ok := ast.Unparen(rs.Results[0]).(*ast.CallExpr)
+	return ok && m.staticCallee(call) == u.Obj
+}
+
+// refLitTagAny: e is a nodeRef composite literal; its tag expression (constant or not) and its
+// pointer operand.
+func (c *Ctx) refLitTagAny(e ast.Expr) (tag ast.Expr, ptr ast.Expr, ok bool) {
+	cl, isLit := ast.Unparen(e).(*ast.CompositeLit)
+	if !isLit {
+		return
+	}
+	n := namedOf(c.m.Info.TypeOf(cl))
+	if n == nil || c.m.NodeRef == nil || n.Obj() != c.m.NodeRef.Obj() {
+		return
+	}
+	st := n.Underlying().(*types.Struct)
+	for i, el := range cl.Elts {
+		name := ""
+		val := el
+		if kv, isKV := el.(*ast.KeyValueExpr); isKV {
+			name = kv.Key.(*ast.Ident).Name
+			val = kv.Value
+		} else if i < st.NumFields() {
+			name = st.Field(i).Name()
+		}
+		switch name {
+		case "tag":
+			tag = val
+		case "pointer":
+			ptr = val
+		}
+	}
+	return tag, ptr, true
 }
